@@ -156,8 +156,9 @@ def innermost_project_frame(exc: BaseException):
     tb = exc.__traceback__
     while tb is not None:
         code = tb.tb_frame.f_code
-        frames.append((os.path.abspath(code.co_filename), code.co_name, getattr(code, "co_qualname", code.co_name),
-                       tb.tb_lineno))
+        if not code.co_filename.startswith("<"):  # "<frozen posixpath>", "<string>": no file, not a project frame
+            frames.append((os.path.abspath(code.co_filename), code.co_name,
+                           getattr(code, "co_qualname", code.co_name), tb.tb_lineno))
         tb = tb.tb_next
     for fn, name, qual, lineno in reversed(frames):
         if fn.startswith(REPO_ROOT + "/"):
